@@ -104,6 +104,10 @@ def main():
 
     # ---------------- E1 ----------------
     e1_components = [c for c in spec.get("e1", []) if tier == "thorough" or not c.get("thorough_only")]
+    # maintenance only (benign_screen.py): driver TUs that provably do not include the edited file are not re-analysed
+    _skip = set(x for x in os.environ.get("VERIF_SKIP_E1_TUS", "").split(",") if x)
+    if _skip and scratch_run:
+        e1_components = [c for c in e1_components if c["tu"] not in _skip]
     if e1_components:
         def run(c):
             return c, e1.analyse_tu(os.path.join(VERIF, "obligations", c["tu"]), tier, c.get("flags", []))
